@@ -259,7 +259,10 @@ pub trait TypedIterable {
     where
         Self: DNSIterable,
     {
-        let new_name_len = DNSSector::check_uncompressed_name(name, 0)?;
+        // Same rules as `parse()` applies to record names, so that the packet
+        // stays parseable: no compression, no control characters, dots or
+        // backslashes in labels.
+        let new_name_len = Compress::check_compressed_name(name, 0)?;
         let name = &name[..new_name_len];
         if self.parsed_packet().maybe_compressed {
             let (uncompressed, new_offset) = {
